@@ -55,7 +55,7 @@ func c04GuardErrorEnds(c *Ctx, rule string) {
 					errv = ex
 				}
 			}
-			okP := errv != nil && errPropagated(f, errv)
+			okP := errv != nil && errPropagatedJoin(f, errv)
 			// the helper that runs the guard may hand the error to its caller, which has to hand it on in turn
 			for g, ev, depth := f, errv, 0; okP && g != try && depth < 4; depth++ {
 				sites := callSitesOf(g, scope)
@@ -79,7 +79,7 @@ func c04GuardErrorEnds(c *Ctx, rule string) {
 							}
 						}
 					}
-					if e2 == nil || !errPropagated(sc.Parent(), e2) {
+					if e2 == nil || !errPropagatedJoin(sc.Parent(), e2) {
 						okP = false
 					}
 					g, ev = sc.Parent(), e2
@@ -92,6 +92,45 @@ func c04GuardErrorEnds(c *Ctx, rule string) {
 	if n == 0 {
 		c.R.Break(rule + ": no guard execution found in Branch.try")
 	}
+}
+
+// errPropagatedJoin: errPropagated, also when the error is first merged with the error of an alternative
+// (`if g { bs, err = a() } else { bs, err = b() }; if err != nil { return err }`): the block that produced errv goes
+// straight to the join, and none of the join's other incoming edges can be taken after errv was produced, so the merged
+// value is errv whenever errv was produced, and the test on the merged value is the test on errv.
+func errPropagatedJoin(fn *ssa.Function, errv ssa.Value) bool {
+	if errv == nil {
+		return false
+	}
+	if errPropagated(fn, errv) {
+		return true
+	}
+	in, ok := errv.(ssa.Instruction)
+	if !ok || in.Block() == nil {
+		return false
+	}
+	from := in.Block()
+	for _, r := range ssau.Referrers(errv) {
+		phi, isPhi := r.(*ssa.Phi)
+		if !isPhi || len(from.Succs) != 1 || from.Succs[0] != phi.Block() {
+			continue
+		}
+		after := flow.ReachableFrom(phi.Block(), nil)
+		sound := true
+		for i, e := range phi.Edges {
+			pred := phi.Block().Preds[i]
+			if e == errv && pred == from {
+				continue
+			}
+			if pred == from || after[pred] {
+				sound = false
+			}
+		}
+		if sound && errPropagated(fn, phi) {
+			return true
+		}
+	}
+	return false
 }
 
 // c04EngineIgnoresCtx: C04-R18 (= C05-R17, C11-R13).  Whether a step is taken, and what it does, does not depend on the
